@@ -693,7 +693,10 @@ impl<'a> Monitor<'a> {
                     effective_clip(&mut t, self.w, self.h)
                 };
                 if let Some(k) = cov.iter().zip(cov_fill.iter()).position(|(a, b)| (*a as i32 - *b as i32).abs() > 32) {
-                    self.viol("C05", format!("the clip path lets {} through at ({},{}) but filling the same path covers the pixel by {}", cov[k], k as i32 % self.w, k as i32 / self.w, cov_fill[k]));
+                    let msg = format!("the clip path lets {} through at ({},{}) but filling the same path covers the pixel by {}", cov[k], k as i32 % self.w, k as i32 / self.w, cov_fill[k]);
+                    self.viol("C05", msg.clone());
+                    // (what is drawn through it changes pixels that the path does not cover, or spares pixels it covers)
+                    self.viol("C02", msg);
                 }
                 self.st.max("max_difference_between_clip_mask_and_fill_coverage", cov.iter().zip(cov_fill.iter()).map(|(a, b)| (*a as i32 - *b as i32).abs()).max().unwrap_or(0) as f64);
                 self.clips.push(ClipEntry::Path(cov));
@@ -1049,6 +1052,29 @@ fn gen_clip(rng: &mut crate::prng::Rng, w: i32, h: i32) -> Op {
             0 if rng.chance(0.15) => Path { ops: Vec::new(), winding: Winding::NonZero },
             0 => rect_path(0., 0., w as f32, h as f32), // fully covering path
             1 => small_shape(rng, w, h),
+            4 if w >= 4 && h >= 4 && rng.chance(0.4) => {
+                // four whole-number corners, three axis-aligned sides and a slanted one (a right trapezoid), from
+                // any corner in either direction: almost a rectangle
+                let (x0, y0) = (rng.int(0, (w as i64 - 3).max(0)) as f32, rng.int(0, (h as i64 - 3).max(0)) as f32);
+                let (x1, y1) = (x0 + rng.int(2, w as i64) as f32, y0 + rng.int(2, h as i64) as f32);
+                let cut = rng.int(1, (x1 - x0) as i64 - 1).max(1) as f32;
+                let mut c = vec![(x0, y0), (x1, y0), (x1, y1), (x0 + cut, y1)];
+                if rng.chance(0.5) {
+                    c = c.iter().map(|p| (p.1 - y0 + x0, p.0 - x0 + y0)).collect();
+                }
+                let k = rng.below(4) as usize;
+                c.rotate_left(k);
+                if rng.chance(0.5) {
+                    c.reverse();
+                }
+                let mut pb = PathBuilder::new();
+                pb.move_to(c[0].0, c[0].1);
+                for p in &c[1..] {
+                    pb.line_to(p.0, p.1);
+                }
+                pb.close();
+                pb.finish()
+            }
             4 => {
                 // an integer rectangle path, also spanned "backwards" (negative width or height)
                 let (x, y) = (rng.int(0, w as i64) as f32, rng.int(0, h as i64) as f32);
@@ -1138,8 +1164,21 @@ pub fn gen_scene(rng: &mut crate::prng::Rng, prof: &SceneProfile) -> Scene {
                 }
             }
         } else if rng.chance(0.07) && ops.last().map(|o| o.is_draw()).unwrap_or(false) {
-            // the same call again, bit for bit (a translucent colour over itself, a source over its own result)
+            // the same call again, bit for bit (a translucent colour over itself, a source over its own result) - or
+            // with the same source and options and the shape moved or grown a little (a second coat that reaches
+            // beyond the first: a pixel's old value may then equal its neighbour's new one)
             let again = ops[ops.len() - 1].clone();
+            let (dx, dy) = (rng.int(-2, 2) as f32, rng.int(-1, 1) as f32);
+            let again = if rng.chance(0.5) {
+                again
+            } else {
+                match again {
+                    Op::Fill(p, s, o) => Op::Fill(p.transform(&Transform::translation(dx, dy)), s, o),
+                    Op::Stroke(p, s, st, o) => Op::Stroke(p.transform(&Transform::translation(dx, dy)), s, st, o),
+                    Op::FillRect(x, y, rw, rh, s, o) => Op::FillRect(x - dx.abs(), y, rw + 2. * dx.abs(), rh + dy.abs(), s, o),
+                    other => other,
+                }
+            };
             ops.push(again);
         } else {
             ops.push(gen_draw(rng, w, h, prof, singular));
